@@ -6,6 +6,9 @@ CONSTANTS
   AutoOpts <- AutoAll
   RVs <- RVall
   UnsubModes <- ModesAll
+  BulkModes = {"handler", "eid", "pair"}
+  BulkLens = {}
+  WithClear = TRUE
   Forms = {"inst", "cls"}
   NoErrs = {FALSE, TRUE}
   RaiseTypes <- TABU
